@@ -1,1 +1,1443 @@
-//! (stub — being implemented)
+//! Sound-by-construction asset synthesisers and byte mutators (DESIGN §3.1, §3.4).
+//!
+//! Every synthesiser emits a structurally valid asset of one container kind together with its
+//! ground-truth structure: named regions in file order (contiguous, covering the file) and, for
+//! BMFF / TIFF, the table of absolute offsets stored in the file with the bytes they address.
+//! Only structures that the SDK's handler for the format accepts are produced (validated by
+//! `toolkit_selftest`); the image / audio payloads are random (nothing in the SDK decodes them
+//! when thumbnails are off).
+//!
+//! Region naming: `"<unit>[<n>].<field>"` (e.g. `IDAT[2].crc`, `APP1[0].len`, `moov/trak[0]/mdia/minf/stbl/stco.data`);
+//! everything up to the last `.` names the structural unit, the suffix the field inside it.
+
+use serde::{Deserialize, Serialize};
+
+use crate::rng::SplitMix64;
+
+#[derive(Clone, Debug, PartialEq, Eq, Hash, Serialize, Deserialize)]
+pub struct Region {
+    pub name: String,
+    pub start: usize,
+    pub len: usize,
+}
+
+impl Region {
+    pub fn end(&self) -> usize {
+        self.start + self.len
+    }
+    /// Unit part of the name (up to the last '.').
+    pub fn unit(&self) -> &str {
+        match self.name.rfind('.') {
+            Some(i) => &self.name[..i],
+            None => &self.name,
+        }
+    }
+}
+
+/// An absolute file offset stored in the file: `width` bytes at `entry_pos` (big endian for BMFF,
+/// file byte order for TIFF) hold `target`; `target_len` bytes at `target` are what it addresses.
+#[derive(Clone, Debug, PartialEq, Eq, Hash, Serialize, Deserialize)]
+pub struct OffsetRef {
+    pub table: String,
+    pub entry_pos: usize,
+    pub width: u8,
+    pub target: usize,
+    pub target_len: usize,
+}
+
+#[derive(Clone, Debug)]
+pub struct Synth {
+    /// mime type the SDK accepts
+    pub format: &'static str,
+    pub ext: &'static str,
+    pub bytes: Vec<u8>,
+    pub regions: Vec<Region>,
+    pub offsets: Vec<OffsetRef>,
+    pub desc: String,
+}
+
+pub const KINDS: &[&str] = &[
+    "jpeg", "png", "gif", "wav", "webp", "avi", "tiff", "svg", "mp3", "flac", "jxl", "mp4", "mov", "heic",
+    "avif", "m4a",
+];
+
+/// The sidecar kind (a manifest store alone); accepted by `synth` but not part of `KINDS` because it
+/// has no media to sign.
+pub const SIDECAR: &str = "c2pa";
+
+/// (mime, extension) for a kind.
+pub fn kind_format(kind: &str) -> (&'static str, &'static str) {
+    match kind {
+        "jpeg" => ("image/jpeg", "jpg"),
+        "png" => ("image/png", "png"),
+        "gif" => ("image/gif", "gif"),
+        "wav" => ("audio/wav", "wav"),
+        "webp" => ("image/webp", "webp"),
+        "avi" => ("video/avi", "avi"),
+        "tiff" => ("image/tiff", "tiff"),
+        "svg" => ("image/svg+xml", "svg"),
+        "mp3" => ("audio/mpeg", "mp3"),
+        "flac" => ("audio/flac", "flac"),
+        "jxl" => ("image/jxl", "jxl"),
+        "mp4" => ("video/mp4", "mp4"),
+        "mov" => ("video/quicktime", "mov"),
+        "heic" => ("image/heic", "heic"),
+        "avif" => ("image/avif", "avif"),
+        "m4a" => ("audio/mp4", "m4a"),
+        "c2pa" => ("application/c2pa", "c2pa"),
+        other => panic!("vh::assets: unknown kind {other}"),
+    }
+}
+
+/// Random instance of `kind`; payload sizes around `size_hint` bytes (0 ⇒ a default drawn from 300..6000).
+pub fn synth(kind: &str, rng: &mut SplitMix64, size_hint: usize) -> Synth {
+    let size = if size_hint == 0 { rng.range(300, 6000) as usize } else { size_hint };
+    let mut cx = Cx { r: rng, simple: false, size, store: None };
+    dispatch(kind, &mut cx)
+}
+
+/// The simplest fixed instance of `kind`.
+pub fn synth_default(kind: &str) -> Synth {
+    let mut rng = SplitMix64::new(0);
+    let mut cx = Cx { r: &mut rng, simple: true, size: 256, store: None };
+    dispatch(kind, &mut cx)
+}
+
+/// Like `synth`, but the asset already carries `store` in the format's manifest container, at a
+/// position drawn from the positions the format allows (region unit name `C2PA…`). For BMFF the C2PA
+/// `uuid` box takes part in the box-order permutation, so `mdat` may precede it.
+/// Supported: jpeg, png, gif, wav, webp, avi, jxl, mp4, mov, heic, avif, m4a, mp3, flac, c2pa
+/// (tiff and svg fall back to `synth`, i.e. no store).
+pub fn synth_with_store(kind: &str, rng: &mut SplitMix64, size_hint: usize, store: &[u8]) -> Synth {
+    let size = if size_hint == 0 { rng.range(300, 6000) as usize } else { size_hint };
+    let mut cx = Cx { r: rng, simple: false, size, store: Some(store.to_vec()) };
+    dispatch(kind, &mut cx)
+}
+
+fn dispatch(kind: &str, cx: &mut Cx) -> Synth {
+    let (format, ext) = kind_format(kind);
+    let mut w = W::default();
+    match kind {
+        "jpeg" => gen_jpeg(cx, &mut w),
+        "png" => gen_png(cx, &mut w),
+        "gif" => gen_gif(cx, &mut w),
+        "wav" | "webp" | "avi" => gen_riff(cx, &mut w, kind),
+        "tiff" => gen_tiff(cx, &mut w),
+        "svg" => gen_svg(cx, &mut w),
+        "mp3" => gen_mp3(cx, &mut w),
+        "flac" => gen_flac(cx, &mut w),
+        "jxl" => gen_jxl(cx, &mut w),
+        "mp4" | "mov" | "heic" | "avif" | "m4a" => gen_bmff(cx, &mut w, kind),
+        "c2pa" => {
+            let s = match &cx.store {
+                Some(s) => s.clone(),
+                None => {
+                    let n = if cx.simple { 64 } else { 38 + cx.size };
+                    fake_store(n, cx.r)
+                }
+            };
+            w.put("C2PA.data", &s);
+            w.note("sidecar");
+        }
+        _ => unreachable!(),
+    }
+    debug_assert!(regions_cover(&w.regions, w.b.len()), "regions of {kind} not contiguous");
+    Synth { format, ext, bytes: w.b, regions: w.regions, offsets: w.offsets, desc: format!("{kind}: {}", w.notes.join(", ")) }
+}
+
+/// True when `regions` are contiguous, in order and cover `0..len`.
+pub fn regions_cover(regions: &[Region], len: usize) -> bool {
+    let mut at = 0;
+    for r in regions {
+        if r.start != at {
+            return false;
+        }
+        at += r.len;
+    }
+    at == len
+}
+
+/// A "well-formed store" for `save_jumbf_to_memory`: a JUMBF superbox whose description box carries the
+/// C2PA manifest-store UUID and label, followed by random bytes; the outer length equals `total_len`.
+pub fn fake_store(total_len: usize, rng: &mut SplitMix64) -> Vec<u8> {
+    assert!(total_len >= 29, "fake_store: total_len must be >= 29");
+    let mut v = Vec::with_capacity(total_len.max(38));
+    v.extend_from_slice(&(total_len as u32).to_be_bytes());
+    v.extend_from_slice(b"jumb");
+    let jumd_len = 30usize.min(total_len - 8);
+    v.extend_from_slice(&(jumd_len as u32).to_be_bytes());
+    v.extend_from_slice(b"jumd");
+    v.extend_from_slice(&C2PA_STORE_UUID);
+    v.push(0x03);
+    v.extend_from_slice(b"c2pa\0");
+    if total_len > v.len() {
+        let rest = rng.bytes(total_len - v.len());
+        v.extend_from_slice(&rest);
+    }
+    v.truncate(total_len);
+    v
+}
+
+pub const C2PA_STORE_UUID: [u8; 16] =
+    [0x63, 0x32, 0x70, 0x61, 0x00, 0x11, 0x00, 0x10, 0x80, 0x00, 0x00, 0xAA, 0x00, 0x38, 0x9B, 0x71];
+
+pub const BMFF_C2PA_UUID: [u8; 16] =
+    [0xd8, 0xfe, 0xc3, 0xd6, 0x1b, 0x0e, 0x48, 0x3c, 0x92, 0x97, 0x58, 0x28, 0x87, 0x7e, 0xc4, 0x81];
+
+pub const BMFF_XMP_UUID: [u8; 16] =
+    [0xbe, 0x7a, 0xcf, 0xcb, 0x97, 0xa9, 0x42, 0xe8, 0x9c, 0x71, 0x99, 0x94, 0x91, 0xe3, 0xaf, 0xac];
+
+// ------------------------------------------------------------------------------------------------
+// byte mutators (DESIGN §3.4)
+// ------------------------------------------------------------------------------------------------
+
+#[derive(Clone, Debug, PartialEq, Eq, Hash, Serialize, Deserialize)]
+pub enum Mutation {
+    Flip { pos: usize, bit: u8 },
+    Set { pos: usize, val: u8 },
+    Insert { pos: usize, bytes: Vec<u8> },
+    Delete { pos: usize, len: usize },
+    Truncate { pos: usize },
+    Append { bytes: Vec<u8> },
+    /// Insert a copy of `start..start+len` directly after it.
+    Duplicate { start: usize, len: usize },
+    /// Exchange two non-overlapping spans (a before b).
+    Swap { a_start: usize, a_len: usize, b_start: usize, b_len: usize },
+}
+
+/// Apply `m`; positions and lengths are clamped to the input (a mutation never panics).
+pub fn apply(bytes: &[u8], m: &Mutation) -> Vec<u8> {
+    let n = bytes.len();
+    let mut v = bytes.to_vec();
+    match m {
+        Mutation::Flip { pos, bit } => {
+            if *pos < n {
+                v[*pos] ^= 1 << (bit & 7);
+            }
+        }
+        Mutation::Set { pos, val } => {
+            if *pos < n {
+                v[*pos] = *val;
+            }
+        }
+        Mutation::Insert { pos, bytes: ins } => {
+            let p = (*pos).min(n);
+            v.splice(p..p, ins.iter().copied());
+        }
+        Mutation::Delete { pos, len } => {
+            let p = (*pos).min(n);
+            let e = p.saturating_add(*len).min(n);
+            v.drain(p..e);
+        }
+        Mutation::Truncate { pos } => v.truncate((*pos).min(n)),
+        Mutation::Append { bytes: tail } => v.extend_from_slice(tail),
+        Mutation::Duplicate { start, len } => {
+            let s = (*start).min(n);
+            let e = s.saturating_add(*len).min(n);
+            let copy = bytes[s..e].to_vec();
+            v.splice(e..e, copy);
+        }
+        Mutation::Swap { a_start, a_len, b_start, b_len } => {
+            let a0 = (*a_start).min(n);
+            let a1 = a0.saturating_add(*a_len).min(n);
+            let b0 = (*b_start).max(a1).min(n);
+            let b1 = b0.saturating_add(*b_len).min(n);
+            let mut out = Vec::with_capacity(n);
+            out.extend_from_slice(&bytes[..a0]);
+            out.extend_from_slice(&bytes[b0..b1]);
+            out.extend_from_slice(&bytes[a1..b0]);
+            out.extend_from_slice(&bytes[a0..a1]);
+            out.extend_from_slice(&bytes[b1..]);
+            v = out;
+        }
+    }
+    v
+}
+
+/// `(start, len)` of the span of the *original* bytes the mutation touches; pure insertions return
+/// the insertion point with `len == 0`. Clamped the same way as `apply`.
+pub fn changed_span(m: &Mutation, orig_len: usize) -> (usize, usize) {
+    let n = orig_len;
+    match m {
+        Mutation::Flip { pos, .. } | Mutation::Set { pos, .. } => {
+            if *pos < n {
+                (*pos, 1)
+            } else {
+                (n, 0)
+            }
+        }
+        Mutation::Insert { pos, .. } => ((*pos).min(n), 0),
+        Mutation::Delete { pos, len } => {
+            let p = (*pos).min(n);
+            (p, p.saturating_add(*len).min(n) - p)
+        }
+        Mutation::Truncate { pos } => {
+            let p = (*pos).min(n);
+            (p, n - p)
+        }
+        Mutation::Append { .. } => (n, 0),
+        Mutation::Duplicate { start, len } => {
+            let s = (*start).min(n);
+            (s.saturating_add(*len).min(n), 0)
+        }
+        Mutation::Swap { a_start, a_len, b_start, b_len } => {
+            let a0 = (*a_start).min(n);
+            let a1 = a0.saturating_add(*a_len).min(n);
+            let b0 = (*b_start).max(a1).min(n);
+            let b1 = b0.saturating_add(*b_len).min(n);
+            (a0, b1 - a0)
+        }
+    }
+}
+
+/// True when the mutation leaves the bytes unchanged (e.g. Set to the same value, empty insert).
+pub fn is_noop(bytes: &[u8], m: &Mutation) -> bool {
+    apply(bytes, m) == bytes
+}
+
+/// Stratified byte positions: every region boundary ±2, every byte of regions of at most 16 bytes
+/// (headers, lengths, CRCs), plus `payload_samples` positions sampled from the larger regions.
+/// Sorted, de-duplicated, all `< len`.
+pub fn stratified_positions(regions: &[Region], len: usize, rng: &mut SplitMix64, payload_samples: usize) -> Vec<usize> {
+    let mut v: Vec<usize> = vec![];
+    let mut push = |p: i64, v: &mut Vec<usize>| {
+        if p >= 0 && (p as usize) < len {
+            v.push(p as usize);
+        }
+    };
+    let mut big: Vec<&Region> = vec![];
+    for r in regions {
+        for d in -2i64..=2 {
+            push(r.start as i64 + d, &mut v);
+            push(r.end() as i64 + d, &mut v);
+        }
+        if r.len <= 16 {
+            for p in r.start..r.end() {
+                push(p as i64, &mut v);
+            }
+        } else {
+            big.push(r);
+        }
+    }
+    if len > 0 {
+        for d in 0..3i64 {
+            push(d, &mut v);
+            push(len as i64 - 1 - d, &mut v);
+        }
+    }
+    if !big.is_empty() {
+        for i in 0..payload_samples {
+            // round-robin over the large regions so that every one of them is hit
+            let r = big[i % big.len()];
+            push((r.start + rng.usize(r.len)) as i64, &mut v);
+        }
+    } else if len > 0 {
+        for _ in 0..payload_samples {
+            push(rng.usize(len) as i64, &mut v);
+        }
+    }
+    v.sort_unstable();
+    v.dedup();
+    v
+}
+
+/// A random mutation of `bytes` guided by the region map (all eight classes).
+pub fn random_mutation(bytes: &[u8], regions: &[Region], rng: &mut SplitMix64) -> Mutation {
+    let n = bytes.len().max(1);
+    let pos = if !regions.is_empty() && rng.chance(1, 2) {
+        let r = rng.pick(regions);
+        let d = rng.range(0, 4) as i64 - 2;
+        ((if rng.bool() { r.start } else { r.end() }) as i64 + d).clamp(0, n as i64 - 1) as usize
+    } else {
+        rng.usize(n)
+    };
+    match rng.below(8) {
+        0 => Mutation::Flip { pos, bit: rng.below(8) as u8 },
+        1 => {
+            let cur = bytes.get(pos).copied().unwrap_or(0);
+            let val = *rng.pick(&[0u8, 0xFF, cur.wrapping_add(1), cur.wrapping_sub(1)]);
+            Mutation::Set { pos, val }
+        }
+        2 => {
+            let k = rng.range(1, 9) as usize;
+            Mutation::Insert { pos, bytes: rng.bytes(k) }
+        }
+        3 => Mutation::Delete { pos, len: rng.range(1, 9) as usize },
+        4 => Mutation::Truncate { pos },
+        5 => {
+            let k = rng.range(1, 17) as usize;
+            Mutation::Append { bytes: rng.bytes(k) }
+        }
+        6 => {
+            if regions.is_empty() {
+                Mutation::Duplicate { start: pos, len: rng.range(1, 16) as usize }
+            } else {
+                let r = rng.pick(regions);
+                Mutation::Duplicate { start: r.start, len: r.len }
+            }
+        }
+        _ => {
+            if regions.len() >= 2 {
+                let i = rng.usize(regions.len() - 1);
+                let j = i + 1 + rng.usize(regions.len() - 1 - i);
+                let (a, b) = (&regions[i], &regions[j]);
+                Mutation::Swap { a_start: a.start, a_len: a.len, b_start: b.start, b_len: b.len }
+            } else {
+                let a = rng.usize(n);
+                Mutation::Swap { a_start: a, a_len: 1, b_start: a + 1 + rng.usize(8), b_len: 1 }
+            }
+        }
+    }
+}
+
+// ------------------------------------------------------------------------------------------------
+// generator plumbing
+// ------------------------------------------------------------------------------------------------
+
+struct Cx<'a> {
+    r: &'a mut SplitMix64,
+    /// synth_default: every optional knob off, every count minimal
+    simple: bool,
+    size: usize,
+    /// pre-existing manifest store to embed (synth_with_store)
+    store: Option<Vec<u8>>,
+}
+
+impl Cx<'_> {
+    fn chance(&mut self, num: u64, den: u64) -> bool {
+        if self.simple {
+            false
+        } else {
+            self.r.chance(num, den)
+        }
+    }
+    /// lo..=hi, `lo` when simple
+    fn range(&mut self, lo: usize, hi: usize) -> usize {
+        if self.simple || hi <= lo {
+            lo
+        } else {
+            self.r.range(lo as u64, hi as u64) as usize
+        }
+    }
+    fn pick<T: Copy>(&mut self, xs: &[T]) -> T {
+        if self.simple {
+            xs[0]
+        } else {
+            xs[self.r.usize(xs.len())]
+        }
+    }
+    fn bytes(&mut self, n: usize) -> Vec<u8> {
+        self.r.bytes(n)
+    }
+    /// payload length around `approx` (half … one and a half), at least `min`
+    fn around(&mut self, approx: usize, min: usize) -> usize {
+        let a = approx.max(min).max(1);
+        if self.simple {
+            return a;
+        }
+        (self.r.range((a / 2) as u64, (a + a / 2) as u64) as usize).max(min)
+    }
+    fn shuffle<T>(&mut self, v: &mut [T]) {
+        if self.simple {
+            return;
+        }
+        for i in (1..v.len()).rev() {
+            let j = self.r.usize(i + 1);
+            v.swap(i, j);
+        }
+    }
+    fn ascii(&mut self, n: usize) -> Vec<u8> {
+        const A: &[u8] = b"abcdefghijklmnopqrstuvwxyz ABCDEFGHIJKLMNOPQRSTUVWXYZ0123456789-_";
+        (0..n).map(|_| A[self.r.usize(A.len())]).collect()
+    }
+    fn xmp(&mut self) -> Vec<u8> {
+        let pad = if self.simple { 0 } else { self.r.usize(40) };
+        let title = String::from_utf8(self.ascii(8)).unwrap();
+        format!(
+            "<?xpacket begin=\"\u{feff}\" id=\"W5M0MpCehiHzreSzNTczkc9d\"?><x:xmpmeta xmlns:x=\"adobe:ns:meta/\"><rdf:RDF xmlns:rdf=\"http://www.w3.org/1999/02/22-rdf-syntax-ns#\"><rdf:Description rdf:about=\"\" xmlns:dc=\"http://purl.org/dc/elements/1.1/\" dc:title=\"{title}\"/></rdf:RDF></x:xmpmeta>{}<?xpacket end=\"w\"?>",
+            " ".repeat(pad)
+        )
+        .into_bytes()
+    }
+}
+
+#[derive(Default)]
+struct W {
+    b: Vec<u8>,
+    regions: Vec<Region>,
+    offsets: Vec<OffsetRef>,
+    notes: Vec<String>,
+    counts: std::collections::BTreeMap<String, usize>,
+}
+
+impl W {
+    fn pos(&self) -> usize {
+        self.b.len()
+    }
+    fn put(&mut self, name: impl Into<String>, bytes: &[u8]) {
+        if bytes.is_empty() {
+            return;
+        }
+        self.regions.push(Region { name: name.into(), start: self.b.len(), len: bytes.len() });
+        self.b.extend_from_slice(bytes);
+    }
+    fn note(&mut self, s: impl Into<String>) {
+        self.notes.push(s.into());
+    }
+    /// `name[n]` with a per-name running counter
+    fn unit(&mut self, name: &str) -> String {
+        let c = self.counts.entry(name.to_string()).or_insert(0);
+        let s = format!("{name}[{c}]");
+        *c += 1;
+        s
+    }
+}
+
+fn be16(v: usize) -> [u8; 2] {
+    (v as u16).to_be_bytes()
+}
+fn be32(v: usize) -> [u8; 4] {
+    (v as u32).to_be_bytes()
+}
+fn le32(v: usize) -> [u8; 4] {
+    (v as u32).to_le_bytes()
+}
+fn le16(v: usize) -> [u8; 2] {
+    (v as u16).to_le_bytes()
+}
+
+// ------------------------------------------------------------------------------------------------
+// JPEG
+// ------------------------------------------------------------------------------------------------
+
+fn jpeg_seg(w: &mut W, name: &str, marker: u8, data: &[u8]) {
+    assert!(data.len() + 2 <= 65535);
+    let u = w.unit(name);
+    w.put(format!("{u}.marker"), &[0xFF, marker]);
+    w.put(format!("{u}.len"), &be16(data.len() + 2));
+    w.put(format!("{u}.data"), data);
+}
+
+/// APP11 segments carrying `store` the way ISO 19566-5 / C2PA prescribe (what the SDK writes).
+fn jpeg_c2pa_segments(w: &mut W, store: &[u8], en: u16, chunk: usize) {
+    for (i, part) in store.chunks(chunk).enumerate() {
+        let mut d = vec![0x4A, 0x50];
+        d.extend_from_slice(&en.to_be_bytes());
+        d.extend_from_slice(&((i + 1) as u32).to_be_bytes());
+        if i > 0 {
+            d.extend_from_slice(&store[..8]);
+        }
+        d.extend_from_slice(part);
+        jpeg_seg(w, "C2PA-APP11", 0xEB, &d);
+    }
+}
+
+fn entropy(cx: &mut Cx, n: usize, restart: bool) -> Vec<u8> {
+    let mut v = Vec::with_capacity(n + n / 64 + 8);
+    let mut rst = 0u8;
+    let interval = if restart { cx.range(24, 200) } else { usize::MAX };
+    let mut since = 0usize;
+    let raw = cx.bytes(n);
+    for (i, b) in raw.iter().enumerate() {
+        // make 0xFF (byte stuffing) reasonably frequent
+        let b = if !cx.simple && i % 37 == 5 { 0xFF } else { *b };
+        v.push(b);
+        if b == 0xFF {
+            v.push(0x00);
+        }
+        since += 1;
+        if since >= interval && i + 1 < raw.len() {
+            v.push(0xFF);
+            v.push(0xD0 + rst);
+            rst = (rst + 1) & 7;
+            since = 0;
+        }
+    }
+    if v.is_empty() {
+        v.push(0x55);
+    }
+    v
+}
+
+fn gen_jpeg(cx: &mut Cx, w: &mut W) {
+    w.put("SOI", &[0xFF, 0xD8]);
+    // application / comment segments
+    #[derive(Clone, Copy, PartialEq)]
+    enum A {
+        Jfif,
+        Jfxx,
+        Exif,
+        Xmp,
+        Icc,
+        App13,
+        Adobe,
+        Com,
+        OtherApp11Short,
+        OtherApp11Jumbf,
+        AppN,
+        C2pa,
+    }
+    let mut apps: Vec<A> = vec![];
+    let jfif = cx.simple || cx.chance(3, 4);
+    if cx.chance(1, 3) {
+        apps.push(A::Exif);
+    }
+    if cx.chance(1, 3) {
+        apps.push(A::Xmp);
+    }
+    if cx.chance(1, 4) {
+        apps.push(A::Icc);
+    }
+    if cx.chance(1, 6) {
+        apps.push(A::App13);
+    }
+    if cx.chance(1, 6) {
+        apps.push(A::Adobe);
+    }
+    for _ in 0..cx.range(0, 2) {
+        apps.push(A::Com);
+    }
+    if cx.chance(1, 8) {
+        apps.push(A::OtherApp11Short);
+    }
+    if cx.chance(1, 8) {
+        apps.push(A::OtherApp11Jumbf);
+    }
+    if cx.chance(1, 6) {
+        apps.push(A::AppN);
+    }
+    if jfif && cx.chance(1, 6) {
+        apps.push(A::Jfxx);
+    }
+    if cx.store.is_some() {
+        apps.push(A::C2pa);
+    }
+    cx.shuffle(&mut apps);
+    if jfif {
+        // JFIF first (as the standard demands) except for a small share of files
+        if cx.chance(1, 10) && !apps.is_empty() {
+            let at = cx.range(0, apps.len());
+            apps.insert(at, A::Jfif);
+        } else {
+            apps.insert(0, A::Jfif);
+        }
+    }
+    let payload = cx.size;
+    for a in apps {
+        match a {
+            A::Jfif => {
+                let mut d = b"JFIF\0".to_vec();
+                d.extend_from_slice(&[1, cx.pick(&[1u8, 2]), cx.pick(&[0u8, 1, 2]), 0, 72, 0, 72, 0, 0]);
+                jpeg_seg(w, "APP0", 0xE0, &d);
+            }
+            A::Jfxx => {
+                let mut d = b"JFXX\0".to_vec();
+                d.push(0x10);
+                let n = cx.range(0, 40);
+                d.extend(cx.bytes(n));
+                jpeg_seg(w, "APP0", 0xE0, &d);
+            }
+            A::Exif => {
+                let mut d = b"Exif\0\0".to_vec();
+                d.extend_from_slice(b"II*\0\x08\0\0\0\x01\0\x12\x01\x03\0\x01\0\0\0\x01\0\0\0\0\0\0\0");
+                let n = cx.range(0, 60);
+                d.extend(cx.bytes(n));
+                jpeg_seg(w, "APP1", 0xE1, &d);
+                w.note("exif");
+            }
+            A::Xmp => {
+                let mut d = b"http://ns.adobe.com/xap/1.0/\0".to_vec();
+                d.extend(cx.xmp());
+                jpeg_seg(w, "APP1", 0xE1, &d);
+                w.note("xmp");
+            }
+            A::Icc => {
+                let mut d = b"ICC_PROFILE\0\x01\x01".to_vec();
+                let n = cx.range(16, 200);
+                d.extend(cx.bytes(n));
+                jpeg_seg(w, "APP2", 0xE2, &d);
+            }
+            A::App13 => {
+                let mut d = b"Photoshop 3.0\08BIM".to_vec();
+                let n = cx.range(4, 60);
+                d.extend(cx.bytes(n));
+                jpeg_seg(w, "APP13", 0xED, &d);
+            }
+            A::Adobe => {
+                jpeg_seg(w, "APP14", 0xEE, b"Adobe\0\x64\0\0\0\0\x01");
+            }
+            A::Com => {
+                let n = cx.range(0, 80);
+                let d = cx.ascii(n);
+                jpeg_seg(w, "COM", 0xFE, &d);
+            }
+            A::OtherApp11Short => {
+                // APP11 too short to be a JUMBF carrier (the SDK ignores contents of <= 16 bytes)
+                let n = cx.range(0, 16);
+                let d = cx.bytes(n);
+                jpeg_seg(w, "APP11", 0xEB, &d);
+                w.note("app11-short");
+            }
+            A::OtherApp11Jumbf => {
+                // a JUMBF box of another type in APP11 (box instance number different from C2PA's)
+                let mut d = vec![0x4A, 0x50, 0x00, 0x07, 0, 0, 0, 1];
+                let n = cx.range(24, 90);
+                let mut bx = be32(8 + 8 + 16 + 1 + n).to_vec();
+                bx.extend_from_slice(b"jumb");
+                bx.extend_from_slice(&be32(8 + 16 + 1));
+                bx.extend_from_slice(b"jumd");
+                bx.extend_from_slice(b"xmpjumbf\0\x11\0\x10\x80\0\0\xAA");
+                bx.push(0);
+                bx.extend(cx.bytes(n));
+                d.extend(bx);
+                jpeg_seg(w, "APP11", 0xEB, &d);
+                w.note("app11-other-jumbf");
+            }
+            A::AppN => {
+                let m = cx.pick(&[0xE3u8, 0xE4, 0xE5, 0xE6, 0xE7, 0xE8, 0xE9, 0xEA, 0xEC, 0xEF]);
+                let n = cx.range(0, 50);
+                let d = cx.bytes(n);
+                jpeg_seg(w, &format!("APP{}", m - 0xE0), m, &d);
+            }
+            A::C2pa => {
+                let store = cx.store.clone().unwrap();
+                let chunk = if store.len() > 200 && cx.chance(1, 3) { cx.range(100, store.len() - 1) } else { 64000 };
+                jpeg_c2pa_segments(w, &store, 0x0211, chunk);
+                w.note("c2pa");
+            }
+        }
+    }
+    // tables and frame header; DQT / DHT / DRI / COM in random order, SOF anywhere among them
+    let progressive = cx.chance(1, 4);
+    let ncomp = cx.pick(&[3usize, 1]);
+    let restart = cx.chance(1, 3);
+    #[derive(Clone, Copy)]
+    enum T {
+        Dqt,
+        Dht,
+        Sof,
+        Dri,
+        Com,
+    }
+    let mut tabs = vec![T::Dqt, T::Sof, T::Dht];
+    if cx.chance(1, 2) {
+        tabs.push(T::Dqt);
+    }
+    for _ in 0..cx.range(0, 3) {
+        tabs.push(T::Dht);
+    }
+    if restart {
+        tabs.push(T::Dri);
+    }
+    if cx.chance(1, 6) {
+        tabs.push(T::Com);
+    }
+    cx.shuffle(&mut tabs);
+    let (iw, ih) = (cx.range(8, 640), cx.range(8, 480));
+    for t in tabs {
+        match t {
+            T::Dqt => {
+                let mut d = vec![cx.pick(&[0u8, 1])];
+                d.extend((0..64).map(|i| (i as u8 % 60) + 1));
+                jpeg_seg(w, "DQT", 0xDB, &d);
+            }
+            T::Dht => {
+                let mut d = vec![cx.pick(&[0x00u8, 0x10, 0x01, 0x11])];
+                let counts = [0u8, 1, 5, 1, 1, 1, 1, 1, 1, 0, 0, 0, 0, 0, 0, 0];
+                d.extend_from_slice(&counts);
+                d.extend(0u8..12);
+                jpeg_seg(w, "DHT", 0xC4, &d);
+            }
+            T::Sof => {
+                let mut d = vec![8];
+                d.extend_from_slice(&be16(ih));
+                d.extend_from_slice(&be16(iw));
+                d.push(ncomp as u8);
+                for c in 0..ncomp {
+                    d.extend_from_slice(&[c as u8 + 1, if c == 0 { 0x22 } else { 0x11 }, if c == 0 { 0 } else { 1 }]);
+                }
+                jpeg_seg(w, if progressive { "SOF2" } else { "SOF0" }, if progressive { 0xC2 } else { 0xC0 }, &d);
+            }
+            T::Dri => {
+                jpeg_seg(w, "DRI", 0xDD, &be16(cx.range(1, 64)));
+            }
+            T::Com => {
+                let d = cx.ascii(12);
+                jpeg_seg(w, "COM", 0xFE, &d);
+            }
+        }
+    }
+    let nscans = if progressive { cx.range(2, 4) } else { 1 };
+    for s in 0..nscans {
+        if s > 0 && cx.chance(1, 2) {
+            let mut d = vec![0x10];
+            d.extend_from_slice(&[0u8, 2, 1, 1, 0, 0, 0, 0, 0, 0, 0, 0, 0, 0, 0, 0]);
+            d.extend(0u8..4);
+            jpeg_seg(w, "DHT", 0xC4, &d);
+        }
+        let nc = if s == 0 { ncomp } else { 1 };
+        let mut d = vec![nc as u8];
+        for c in 0..nc {
+            d.extend_from_slice(&[c as u8 + 1, 0x00]);
+        }
+        d.extend_from_slice(&if progressive { [s as u8, (s as u8 + 5).min(63), 0] } else { [0, 63, 0] });
+        jpeg_seg(w, "SOS", 0xDA, &d);
+        let n = cx.around(payload / nscans, 4);
+        let e = entropy(cx, n, restart);
+        let u = w.unit("scan");
+        w.put(format!("{u}.data"), &e);
+    }
+    if restart {
+        w.note("restart");
+    }
+    if progressive {
+        w.note("progressive");
+    }
+    w.put("EOI", &[0xFF, 0xD9]);
+    match cx.range(0, 5) {
+        1 => {
+            let n = cx.range(1, 64);
+            let t = cx.bytes(n);
+            w.put("trailing.data", &t);
+            w.note("trailing");
+        }
+        2 => {
+            // MPF-style second image appended after EOI
+            let mut t = vec![0xFF, 0xD8, 0xFF, 0xDB, 0x00, 0x43, 0x00];
+            t.extend((0..64).map(|i| i as u8 + 1));
+            t.extend_from_slice(&[0xFF, 0xDA, 0x00, 0x08, 0x01, 0x01, 0x00, 0x00, 0x3F, 0x00]);
+            let n = cx.range(4, 120);
+            t.extend(entropy(cx, n, false));
+            t.extend_from_slice(&[0xFF, 0xD9]);
+            w.put("trailing.data", &t);
+            w.note("second-image");
+        }
+        _ => {}
+    }
+}
+
+// ------------------------------------------------------------------------------------------------
+// PNG
+// ------------------------------------------------------------------------------------------------
+
+pub fn crc32(bytes: &[u8]) -> u32 {
+    let mut c = 0xFFFF_FFFFu32;
+    for &b in bytes {
+        c ^= b as u32;
+        for _ in 0..8 {
+            c = if c & 1 != 0 { (c >> 1) ^ 0xEDB8_8320 } else { c >> 1 };
+        }
+    }
+    !c
+}
+
+fn adler32(bytes: &[u8]) -> u32 {
+    let (mut a, mut b) = (1u32, 0u32);
+    for &x in bytes {
+        a = (a + x as u32) % 65521;
+        b = (b + a) % 65521;
+    }
+    (b << 16) | a
+}
+
+/// zlib stream with stored (uncompressed) deflate blocks
+fn zlib_stored(raw: &[u8]) -> Vec<u8> {
+    let mut v = vec![0x78, 0x01];
+    let mut chunks: Vec<&[u8]> = raw.chunks(65535).collect();
+    if chunks.is_empty() {
+        chunks.push(&[]);
+    }
+    let last = chunks.len() - 1;
+    for (i, c) in chunks.iter().enumerate() {
+        v.push(if i == last { 1 } else { 0 });
+        v.extend_from_slice(&(c.len() as u16).to_le_bytes());
+        v.extend_from_slice(&(!(c.len() as u16)).to_le_bytes());
+        v.extend_from_slice(c);
+    }
+    v.extend_from_slice(&adler32(raw).to_be_bytes());
+    v
+}
+
+fn png_chunk(w: &mut W, typ: &[u8; 4], data: &[u8]) {
+    let name = String::from_utf8_lossy(typ).to_string();
+    let u = if typ == b"caBX" { w.unit("C2PA-caBX") } else { w.unit(&name) };
+    w.put(format!("{u}.len"), &be32(data.len()));
+    w.put(format!("{u}.type"), typ);
+    w.put(format!("{u}.data"), data);
+    let mut c = typ.to_vec();
+    c.extend_from_slice(data);
+    w.put(format!("{u}.crc"), &crc32(&c).to_be_bytes());
+}
+
+fn gen_png(cx: &mut Cx, w: &mut W) {
+    w.put("signature", &[137, 80, 78, 71, 13, 10, 26, 10]);
+    let color_type = cx.pick(&[0u8, 2, 3, 6, 4]);
+    let channels = match color_type {
+        0 | 3 => 1,
+        2 => 3,
+        4 => 2,
+        _ => 4,
+    };
+    let width = cx.range(1, 48);
+    let height = (cx.size / (width * channels + 1)).max(1);
+    let store = cx.store.clone();
+    // a pre-existing caBX can sit before IHDR (the SDK handles that layout), right after it, or later
+    let cabx_pos = if store.is_some() { cx.range(0, 3) } else { 9 };
+    if cabx_pos == 0 {
+        png_chunk(w, b"caBX", store.as_ref().unwrap());
+        w.note("c2pa-before-IHDR");
+    }
+    let mut ihdr = be32(width).to_vec();
+    ihdr.extend_from_slice(&be32(height));
+    ihdr.extend_from_slice(&[8, color_type, 0, 0, 0]);
+    png_chunk(w, b"IHDR", &ihdr);
+    if cabx_pos == 1 {
+        png_chunk(w, b"caBX", store.as_ref().unwrap());
+        w.note("c2pa-after-IHDR");
+    }
+    // ancillary chunks before the image data
+    let mut pre: Vec<&[u8; 4]> = vec![];
+    for (t, num, den) in [
+        (b"gAMA", 1, 3),
+        (b"cHRM", 1, 6),
+        (b"sRGB", 1, 5),
+        (b"pHYs", 1, 3),
+        (b"tEXt", 1, 2),
+        (b"zTXt", 1, 5),
+        (b"iTXt", 1, 3),
+        (b"tIME", 1, 5),
+        (b"vpAg", 1, 8),
+        (b"prVt", 1, 8),
+    ] {
+        if cx.chance(num, den) {
+            pre.push(t);
+        }
+    }
+    cx.shuffle(&mut pre);
+    let mut later_cabx_done = cabx_pos != 2;
+    let emit = |cx: &mut Cx, w: &mut W, t: &[u8; 4]| match t {
+        b"gAMA" => png_chunk(w, t, &be32(45455)),
+        b"cHRM" => {
+            let d = cx.bytes(32);
+            png_chunk(w, t, &d)
+        }
+        b"sRGB" => png_chunk(w, t, &[0]),
+        b"pHYs" => png_chunk(w, t, &[0, 0, 0x0B, 0x13, 0, 0, 0x0B, 0x13, 1]),
+        b"tEXt" => {
+            let mut d = b"Comment\0".to_vec();
+            let n = cx.range(0, 60);
+            d.extend(cx.ascii(n));
+            png_chunk(w, t, &d)
+        }
+        b"zTXt" => {
+            let mut d = b"Description\0\0".to_vec();
+            let n = cx.range(1, 40);
+            let raw = cx.ascii(n);
+            d.extend(zlib_stored(&raw));
+            png_chunk(w, t, &d)
+        }
+        b"iTXt" => {
+            let mut d = b"XML:com.adobe.xmp\0\0\0\0\0".to_vec();
+            d.extend(cx.xmp());
+            png_chunk(w, t, &d);
+            w.note("xmp");
+        }
+        b"tIME" => png_chunk(w, t, &[0x07, 0xE8, 5, 17, 12, 30, 59]),
+        b"eXIf" => {
+            let mut d = b"II*\0\x08\0\0\0\0\0\0\0\0\0".to_vec();
+            let n = cx.range(0, 30);
+            d.extend(cx.bytes(n));
+            png_chunk(w, t, &d)
+        }
+        _ => {
+            let n = cx.range(0, 33);
+            let d = cx.bytes(n);
+            png_chunk(w, t, &d)
+        }
+    };
+    for t in pre {
+        emit(cx, w, t);
+    }
+    if color_type == 3 {
+        let n = cx.range(1, 16);
+        let d = cx.bytes(3 * n);
+        png_chunk(w, b"PLTE", &d);
+    }
+    if !later_cabx_done && cx.chance(1, 2) {
+        png_chunk(w, b"caBX", store.as_ref().unwrap());
+        w.note("c2pa-before-IDAT");
+        later_cabx_done = true;
+    }
+    // image data: filter byte + row, stored deflate, split over 1..n IDAT chunks
+    let mut raw = Vec::with_capacity(height * (width * channels + 1));
+    for _ in 0..height {
+        raw.push(0);
+        raw.extend(cx.bytes(width * channels));
+    }
+    let z = zlib_stored(&raw);
+    let nidat = cx.range(1, 5).min(z.len());
+    let mut cuts: Vec<usize> = (0..nidat - 1).map(|_| cx.range(1, z.len() - 1)).collect();
+    cuts.push(0);
+    cuts.push(z.len());
+    cuts.sort_unstable();
+    cuts.dedup();
+    for p in cuts.windows(2) {
+        png_chunk(w, b"IDAT", &z[p[0]..p[1]]);
+    }
+    w.note(format!("{}x{} ct{} idat{}", width, height, color_type, cuts.len() - 1));
+    let mut post: Vec<&[u8; 4]> = vec![];
+    for (t, num, den) in [(b"tEXt", 1, 5), (b"eXIf", 1, 5), (b"tIME", 1, 8)] {
+        if cx.chance(num, den) {
+            post.push(t);
+        }
+    }
+    for t in post {
+        emit(cx, w, t);
+    }
+    if !later_cabx_done {
+        png_chunk(w, b"caBX", store.as_ref().unwrap());
+        w.note("c2pa-before-IEND");
+    }
+    png_chunk(w, b"IEND", &[]);
+    if cx.chance(1, 5) {
+        let n = cx.range(1, 40);
+        let t = cx.bytes(n);
+        w.put("trailing.data", &t);
+        w.note("trailing");
+    }
+}
+
+// ------------------------------------------------------------------------------------------------
+// GIF
+// ------------------------------------------------------------------------------------------------
+
+fn sub_blocks(data: &[u8], max: usize) -> Vec<u8> {
+    let mut v = vec![];
+    for c in data.chunks(max.clamp(1, 255)) {
+        v.push(c.len() as u8);
+        v.extend_from_slice(c);
+    }
+    v.push(0);
+    v
+}
+
+fn gen_gif(cx: &mut Cx, w: &mut W) {
+    #[derive(Clone, Copy, PartialEq)]
+    enum B {
+        Netscape,
+        Xmp,
+        UnknownApp,
+        Comment,
+        Image,
+        PlainText,
+        LoneGce,
+        C2pa,
+    }
+    // extension blocks before the first image (where a C2PA block may live) and between images
+    let nimages = cx.range(1, 4);
+    let mut lead: Vec<B> = vec![];
+    if cx.chance(1, 3) {
+        lead.push(B::Netscape);
+    }
+    if cx.chance(1, 4) {
+        lead.push(B::Xmp);
+    }
+    if cx.chance(1, 4) {
+        lead.push(B::UnknownApp);
+    }
+    if cx.chance(1, 3) {
+        lead.push(B::Comment);
+    }
+    if cx.chance(1, 8) {
+        lead.push(B::PlainText);
+    }
+    if cx.store.is_some() {
+        lead.push(B::C2pa);
+    }
+    cx.shuffle(&mut lead);
+    let mut blocks = lead;
+    for i in 0..nimages {
+        blocks.push(B::Image);
+        if i + 1 < nimages || cx.chance(1, 3) {
+            if cx.chance(1, 3) {
+                blocks.push(B::Comment);
+            }
+            if cx.chance(1, 8) {
+                blocks.push(B::PlainText);
+            }
+            if cx.chance(1, 8) {
+                blocks.push(B::UnknownApp);
+            }
+            if cx.chance(1, 10) {
+                blocks.push(B::LoneGce);
+            }
+        }
+    }
+    let only_images = blocks.iter().all(|b| *b == B::Image);
+    let v87 = only_images && cx.chance(1, 2);
+    w.put("header", if v87 { b"GIF87a" } else { b"GIF89a" });
+    let gct = cx.simple || cx.chance(3, 4);
+    let gct_bits = cx.range(0, 4);
+    let (sw, sh) = (cx.range(1, 300), cx.range(1, 300));
+    let mut lsd = le16(sw).to_vec();
+    lsd.extend_from_slice(&le16(sh));
+    lsd.push(if gct { 0x80 | 0x70 | gct_bits as u8 } else { 0x70 });
+    lsd.extend_from_slice(&[0, 0]);
+    w.put("LSD", &lsd);
+    if gct {
+        let t = cx.bytes(3 << (gct_bits + 1));
+        w.put("GCT", &t);
+    }
+    let per_image = cx.size / nimages;
+    let mut with_gce = 0;
+    for b in blocks {
+        match b {
+            B::Netscape => {
+                let u = w.unit("app-ext");
+                let mut d = vec![0x21, 0xFF, 0x0B];
+                d.extend_from_slice(b"NETSCAPE2.0");
+                w.put(format!("{u}.hdr"), &d);
+                w.put(format!("{u}.data"), &[3, 1, 0, 0, 0]);
+            }
+            B::Xmp => {
+                let u = w.unit("app-ext-xmp");
+                let mut d = vec![0x21, 0xFF, 0x0B];
+                d.extend_from_slice(b"XMP DataXMP");
+                w.put(format!("{u}.hdr"), &d);
+                // XMP packet written raw, followed by the 258-byte "magic trailer"
+                let mut x = cx.xmp();
+                x.push(1);
+                x.extend((0..=255u8).rev());
+                x.push(0);
+                w.put(format!("{u}.data"), &x);
+                w.note("xmp");
+            }
+            B::UnknownApp => {
+                let u = w.unit("app-ext");
+                let mut d = vec![0x21, 0xFF, 0x0B];
+                d.extend_from_slice(b"VERIFAPP1.0");
+                w.put(format!("{u}.hdr"), &d);
+                let n = cx.range(0, 600);
+                let p = cx.bytes(n);
+                let m = cx.range(1, 255);
+                w.put(format!("{u}.data"), &sub_blocks(&p, m));
+            }
+            B::C2pa => {
+                let u = w.unit("C2PA-app-ext");
+                let mut d = vec![0x21, 0xFF, 0x0B];
+                d.extend_from_slice(b"C2PA_GIF\x01\0\0");
+                w.put(format!("{u}.hdr"), &d);
+                let s = cx.store.clone().unwrap();
+                w.put(format!("{u}.data"), &sub_blocks(&s, 255));
+                w.note("c2pa");
+            }
+            B::Comment => {
+                let u = w.unit("comment-ext");
+                w.put(format!("{u}.hdr"), &[0x21, 0xFE]);
+                let n = cx.range(0, 300);
+                let p = cx.ascii(n);
+                let m = cx.range(1, 255);
+                w.put(format!("{u}.data"), &sub_blocks(&p, m));
+            }
+            B::PlainText => {
+                // NOTE: foreground colour index fixed to 1: the SDK's plain-text parser skips 11 instead of
+                // 13 header bytes and so reads the fg index as a sub-block length; 1 keeps both parses aligned.
+                let u = w.unit("plain-text-ext");
+                let mut d = vec![0x21, 0x01, 0x0C];
+                d.extend_from_slice(&le16(cx.range(0, 20)));
+                d.extend_from_slice(&le16(cx.range(0, 20)));
+                d.extend_from_slice(&le16(cx.range(1, 100)));
+                d.extend_from_slice(&le16(cx.range(1, 100)));
+                d.extend_from_slice(&[8, 8, 1, cx.range(0, 255) as u8]);
+                w.put(format!("{u}.hdr"), &d);
+                let n = cx.range(0, 80);
+                let p = cx.ascii(n);
+                w.put(format!("{u}.data"), &sub_blocks(&p, 255));
+                w.note("plain-text");
+            }
+            B::LoneGce => {
+                let u = w.unit("gce");
+                w.put(format!("{u}.data"), &[0x21, 0xF9, 0x04, 0x00, 0x0A, 0x00, 0x00, 0x00]);
+            }
+            B::Image => {
+                if !v87 && cx.chance(1, 2) {
+                    let u = w.unit("gce");
+                    let delay = cx.range(0, 50);
+                    let mut d = vec![0x21, 0xF9, 0x04, cx.pick(&[0u8, 1, 4, 9])];
+                    d.extend_from_slice(&le16(delay));
+                    d.extend_from_slice(&[cx.range(0, 255) as u8, 0]);
+                    w.put(format!("{u}.data"), &d);
+                    with_gce += 1;
+                }
+                let u = w.unit("image");
+                let lct = cx.chance(1, 3);
+                let lct_bits = cx.range(0, 3);
+                let mut d = vec![0x2C];
+                d.extend_from_slice(&le16(cx.range(0, 10)));
+                d.extend_from_slice(&le16(cx.range(0, 10)));
+                d.extend_from_slice(&le16(cx.range(1, 200)));
+                d.extend_from_slice(&le16(cx.range(1, 200)));
+                d.push(if lct { 0x80 | lct_bits as u8 } else { 0 } | if cx.chance(1, 4) { 0x40 } else { 0 });
+                w.put(format!("{u}.descriptor"), &d);
+                if lct {
+                    let t = cx.bytes(3 << (lct_bits + 1));
+                    w.put(format!("{u}.LCT"), &t);
+                }
+                w.put(format!("{u}.lzw-min"), &[cx.range(2, 8) as u8]);
+                let n = cx.around(per_image, 1);
+                let p = cx.bytes(n);
+                let m = cx.pick(&[255usize, 255, 254, 100, 1]);
+                w.put(format!("{u}.data"), &sub_blocks(&p, m));
+            }
+        }
+    }
+    w.put("trailer", &[0x3B]);
+    w.note(format!("{} images{}{}", nimages, if v87 { " 87a" } else { "" }, if with_gce > 0 { " gce" } else { "" }));
+    if cx.chance(1, 5) {
+        let n = cx.range(1, 40);
+        let t = cx.bytes(n);
+        w.put("trailing.data", &t);
+        w.note("trailing");
+    }
+}
+
+// ------------------------------------------------------------------------------------------------
+// RIFF (WAV, WebP, AVI)
+// ------------------------------------------------------------------------------------------------
+
+/// A RIFF chunk tree that is serialised with regions.
+enum Rc {
+    Data(&'static str, [u8; 4], Vec<u8>),
+    List([u8; 4], [u8; 4], Vec<Rc>),
+}
+
+fn rc_size(c: &Rc) -> usize {
+    match c {
+        Rc::Data(_, _, d) => 8 + d.len() + (d.len() & 1),
+        Rc::List(_, _, ch) => 12 + ch.iter().map(rc_size).sum::<usize>(),
+    }
+}
+
+fn rc_write(w: &mut W, c: &Rc, prefix: &str) {
+    match c {
+        Rc::Data(label, id, d) => {
+            let base = if label.is_empty() { String::from_utf8_lossy(id).trim_end().to_string() } else { label.to_string() };
+            let u = w.unit(&format!("{prefix}{base}"));
+            w.put(format!("{u}.id"), id);
+            w.put(format!("{u}.size"), &le32(d.len()));
+            w.put(format!("{u}.data"), d);
+            if d.len() & 1 == 1 {
+                w.put(format!("{u}.pad"), &[0]);
+            }
+        }
+        Rc::List(id, form, ch) => {
+            let base = format!("{}-{}", String::from_utf8_lossy(id).trim_end(), String::from_utf8_lossy(form).trim_end());
+            let u = w.unit(&format!("{prefix}{base}"));
+            w.put(format!("{u}.id"), id);
+            w.put(format!("{u}.size"), &le32(rc_size(c) - 8));
+            w.put(format!("{u}.form"), form);
+            let p = format!("{u}/");
+            for k in ch {
+                rc_write(w, k, &p);
+            }
+        }
+    }
+}
+
+fn gen_riff(cx: &mut Cx, w: &mut W, kind: &str) {
+    let mut top: Vec<Rc> = vec![];
+    let mut extra_riffs: Vec<Rc> = vec![];
+    let form: [u8; 4];
+    let junk = |cx: &mut Cx| {
+        let n = cx.range(0, 40);
+        Rc::Data("", *b"JUNK", vec![0; n])
+    };
+    match kind {
+        "wav" => {
+            form = *b"WAVE";
+            let ch = cx.pick(&[1usize, 2]);
+            let rate = cx.pick(&[8000usize, 44100, 48000]);
+            let bits = cx.pick(&[16usize, 8]);
+            let mut fmt = le16(1).to_vec();
+            fmt.extend_from_slice(&le16(ch));
+            fmt.extend_from_slice(&le32(rate));
+            fmt.extend_from_slice(&le32(rate * ch * bits / 8));
+            fmt.extend_from_slice(&le16(ch * bits / 8));
+            fmt.extend_from_slice(&le16(bits));
+            if cx.chance(1, 5) {
+                fmt.extend_from_slice(&[0, 0]); // cbSize = 0 (18-byte fmt)
+            }
+            let mut rest: Vec<Rc> = vec![];
+            let n = cx.around(cx.size, 1);
+            rest.push(Rc::Data("", *b"data", cx.bytes(n)));
+            if cx.chance(1, 3) {
+                let mut kids = vec![];
+                let a = cx.range(1, 21);
+                kids.push(Rc::Data("", *b"INAM", cx.ascii(a)));
+                if cx.chance(1, 2) {
+                    let a = cx.range(1, 21);
+                    kids.push(Rc::Data("", *b"IART", cx.ascii(a)));
+                }
+                if cx.chance(1, 2) {
+                    kids.push(Rc::Data("", *b"ISFT", b"verif\0".to_vec()));
+                }
+                rest.push(Rc::List(*b"LIST", *b"INFO", kids));
+            }
+            if cx.chance(1, 5) {
+                rest.push(Rc::Data("", *b"fact", le32(n).to_vec()));
+            }
+            if cx.chance(1, 6) {
+                rest.push(Rc::Data("", *b"cue ", le32(0).to_vec()));
+            }
+            if cx.chance(1, 6) {
+                rest.push(junk(cx));
+            }
+            if cx.chance(1, 6) {
+                let a = cx.range(1, 50);
+                rest.push(Rc::Data("", *b"bext", cx.bytes(a)));
+            }
+            if cx.chance(1, 5) {
+                rest.push(Rc::Data("", *b"_PMX", cx.xmp()));
+                w.note("xmp(_PMX)");
+            }
+            cx.shuffle(&mut rest);
+            top.push(Rc::Data("", *b"fmt ", fmt));
+            top.extend(rest);
+            w.note(format!("{ch}ch {rate}Hz {bits}bit"));
+        }
+        "webp" => {
+            form = *b"WEBP";
+            let (iw, ih) = (cx.range(1, 500), cx.range(1, 500));
+            let lossless = cx.chance(1, 3);
+            let bitstream = |cx: &mut Cx| -> Rc {
+                let n = cx.around(cx.size, 16);
+                if lossless {
+                    let mut d = vec![0x2F];
+                    let v = ((iw - 1) as u32) | (((ih - 1) as u32) << 14);
+                    d.extend_from_slice(&v.to_le_bytes());
+                    d.extend(cx.bytes(n));
+                    Rc::Data("", *b"VP8L", d)
+                } else {
+                    let mut d = vec![0x30, 0x01, 0x00, 0x9D, 0x01, 0x2A];
+                    d.extend_from_slice(&le16(iw));
+                    d.extend_from_slice(&le16(ih));
+                    d.extend(cx.bytes(n));
+                    Rc::Data("", *b"VP8 ", d)
+                }
+            };
+            if cx.chance(1, 2) {
+                // extended format
+                let icc = cx.chance(1, 4);
+                let alpha = !lossless && cx.chance(1, 4);
+                let exif = cx.chance(1, 3);
+                let xmp = cx.chance(1, 3);
+                let flags = (icc as u8) << 5 | (alpha as u8) << 4 | (exif as u8) << 3 | (xmp as u8) << 2;
+                let mut d = vec![flags, 0, 0, 0];
+                d.extend_from_slice(&((iw - 1) as u32).to_le_bytes()[..3]);
+                d.extend_from_slice(&((ih - 1) as u32).to_le_bytes()[..3]);
+                top.push(Rc::Data("", *b"VP8X", d));
+                if icc {
+                    let a = cx.range(1, 130);
+                    top.push(Rc::Data("", *b"ICCP", cx.bytes(a)));
+                }
+                if alpha {
+                    let a = cx.range(1, 100);
+                    top.push(Rc::Data("", *b"ALPH", cx.bytes(a)));
+                }
+                top.push(bitstream(cx));
+                if exif {
+                    let a = cx.range(8, 61);
+                    top.push(Rc::Data("", *b"EXIF", cx.bytes(a)));
+                }
+                if xmp {
+                    top.push(Rc::Data("", *b"XMP ", cx.xmp()));
+                    w.note("xmp");
+                }
+                if cx.chance(1, 8) {
+                    let a = cx.range(0, 21);
+                    top.push(Rc::Data("", *b"UNKN", cx.bytes(a)));
+                }
+                w.note("VP8X");
+            } else {
+                top.push(bitstream(cx));
+            }
+            w.note(if lossless { "lossless" } else { "lossy" });
+        }
+        _ => {
+            form = *b"AVI ";
+            let nframes = cx.range(1, 6);
+            let mut avih = vec![0u8; 56];
+            avih[0..4].copy_from_slice(&le32(33333));
+            avih[16..20].copy_from_slice(&le32(nframes));
+            avih[24..28].copy_from_slice(&le32(1));
+            avih[32..36].copy_from_slice(&le32(160));
+            avih[36..40].copy_from_slice(&le32(120));
+            let mut strh = vec![0u8; 56];
+            strh[0..4].copy_from_slice(b"vids");
+            strh[4..8].copy_from_slice(b"MJPG");
+            strh[20..24].copy_from_slice(&le32(1));
+            strh[24..28].copy_from_slice(&le32(30));
+            strh[32..36].copy_from_slice(&le32(nframes));
+            let mut strf = vec![0u8; 40];
+            strf[0..4].copy_from_slice(&le32(40));
+            strf[4..8].copy_from_slice(&le32(160));
+            strf[8..12].copy_from_slice(&le32(120));
+            strf[12..14].copy_from_slice(&le16(1));
+            strf[14..16].copy_from_slice(&le16(24));
+            strf[16..20].copy_from_slice(b"MJPG");
+            let mut strl = vec![Rc::Data("", *b"strh", strh), Rc::Data("", *b"strf", strf)];
+            if cx.chance(1, 3) {
+                let a = cx.range(1, 16);
+                strl.push(Rc::Data("", *b"strn", cx.ascii(a)));
+            }
+            let mut hdrl = vec![Rc::Data("", *b"avih", avih), Rc::List(*b"LIST", *b"strl", strl)];
+            if cx.chance(1, 4) {
+                hdrl.push(junk(cx));
+            }
+            top.push(Rc::List(*b"LIST", *b"hdrl", hdrl));
+            if cx.chance(1, 3) {
+                let a = cx.range(1, 30);
+                top.push(Rc::List(*b"LIST", *b"INFO", vec![Rc::Data("", *b"ISFT", cx.ascii(a))]));
+            }
+            if cx.chance(1, 3) {
+                top.push(junk(cx));
+            }
+            let mut frames = vec![];
+            let mut idx = vec![];
+            let mut rel = 4usize;
+            for _ in 0..nframes {
+                let n = cx.around(cx.size / nframes, 1);
+                idx.extend_from_slice(b"00dc");
+                idx.extend_from_slice(&le32(0x10));
+                idx.extend_from_slice(&le32(rel));
+                idx.extend_from_slice(&le32(n));
+                rel += 8 + n + (n & 1);
+                frames.push(Rc::Data("", *b"00dc", cx.bytes(n)));
+            }
+            top.push(Rc::List(*b"LIST", *b"movi", frames));
+            if cx.chance(2, 3) {
+                top.push(Rc::Data("", *b"idx1", idx));
+            }
+            // OpenDML: further RIFF 'AVIX' chunks after the first RIFF chunk
+            for _ in 0..(if cx.chance(1, 4) { cx.range(1, 2) } else { 0 }) {
+                let n = cx.range(1, 200);
+                extra_riffs.push(Rc::List(*b"RIFF", *b"AVIX", vec![Rc::List(*b"LIST", *b"movi", vec![Rc::Data("", *b"00dc", cx.bytes(n))])]));
+                w.note("AVIX");
+            }
+            w.note(format!("{nframes} frames"));
+        }
+    }
+    if let Some(s) = cx.store.clone() {
+        // the C2PA chunk may be anywhere among the children of the first RIFF chunk (the SDK looks at all of them)
+        let at = if cx.chance(1, 2) { top.len() } else { cx.range(1, top.len()) };
+        top.insert(at, Rc::Data("C2PA", *b"C2PA", s));
+        w.note("c2pa");
+    }
+    let riff = Rc::List(*b"RIFF", form, top);
+    rc_write(w, &riff, "");
+    for r in &extra_riffs {
+        rc_write(w, r, "");
+    }
+}
+
+include!("assets_more.rs");
